@@ -130,12 +130,13 @@ Definition in_garbage (c : cstate) (id : oid) : N :=
             end
   end.
 
-(* objectLocked *)
+(* objectLocked: some associated, non-expired LOCK object that is not removed itself *)
 Definition object_locked (cur : N) (c : cstate) (id : oid) : bool :=
-  match assoc_typed cur c id TLock with
-  | None => false
-  | Some l => in_garbage c l =? st_available
-  end.
+  existsb (fun a => match type_of c a with
+                    | Some TLock => negb ((0 <? cur) && is_expired c a cur) && (in_garbage c a =? st_available)
+                    | _ => false
+                    end)
+          (ids_where (fun e => opt_eqb (h_assoc (e_hdr e)) (Some id)) c).
 
 (* objectStatusDirect *)
 Definition status_direct (c : cstate) (id : oid) (cur : N) : N :=
@@ -464,24 +465,14 @@ Definition delete_group (c : cstate) (ids : list oid) : cstate * list oid * cdif
 
 Inductive rres := RGraveyard (tomb : oid) | RGarbage | RNotRemoved | RCnrGarbage.
 
-(* reviveCounters *)
+(* reviveCounters: only the payload size is restored *)
 Definition revive_counters (c : cstate) (id : oid) : cstate :=
   match get_entry c id with
   | None => c
   | Some e =>
       let n := cnt c in
-      let n1 := mkCnt (c_phy n) (c_root n) (c_ts n) (c_lock n) (c_link n) (c_gc n)
-                      (upd_counter (c_payload n) (Z.of_N (h_size (e_hdr e)))) in
-      let n2 :=
-        match h_typ (e_hdr e) with
-        | TRegular => mkCnt (if e_phy e then upd_counter (c_phy n1) 1 else c_phy n1)
-                            (if e_root e then upd_counter (c_root n1) 1 else c_root n1)
-                            (c_ts n1) (c_lock n1) (c_link n1) (c_gc n1) (c_payload n1)
-        | TTombstone => mkCnt (c_phy n1) (c_root n1) (upd_counter (c_ts n1) 1) (c_lock n1) (c_link n1) (c_gc n1) (c_payload n1)
-        | TLock => mkCnt (c_phy n1) (c_root n1) (c_ts n1) (upd_counter (c_lock n1) 1) (c_link n1) (c_gc n1) (c_payload n1)
-        | TLink => mkCnt (c_phy n1) (c_root n1) (c_ts n1) (c_lock n1) (upd_counter (c_link n1) 1) (c_gc n1) (c_payload n1)
-        end in
-      set_cnt c n2
+      set_cnt c (mkCnt (c_phy n) (c_root n) (c_ts n) (c_lock n) (c_link n) (c_gc n)
+                       (upd_counter (c_payload n) (Z.of_N (h_size (e_hdr e)))))
   end.
 
 (* DB.ReviveObject on an existing bucket *)
@@ -531,10 +522,10 @@ Definition set_bucket (s : state) (c : cid) (b : cstate) : state := mkS (sm_put 
 Definition skippable (e : perr) : bool :=
   match e with EAlreadyRemoved | EExpired | ELocked => true | _ => false end.
 
-(* PutBatch body: Some state' or None when the whole batch is rolled back *)
-Fixpoint batch_loop (s : state) (os : list (cid * obj)) : option state :=
+(* PutBatch body: inl state' or inr error when the whole batch is rolled back *)
+Fixpoint batch_loop (s : state) (os : list (cid * obj)) : state + perr :=
   match os with
-  | [] => Some s
+  | [] => inl s
   | (c, o) :: r =>
       let '(b, _, e) := put_top (epoch s) (bucket_or_new s c) o in
       match e with
@@ -544,7 +535,7 @@ Fixpoint batch_loop (s : state) (os : list (cid * obj)) : option state :=
                               | None, [] => s      (* nothing was created before the failure *)
                               | _, _ => set_bucket s c b
                               end) r
-             else None
+             else inr e
       end
   end.
 
@@ -560,8 +551,8 @@ Definition step (s : state) (o : op) : state * list Z :=
       match os with
       | [] => (s, [0%Z])
       | _ => match batch_loop s os with
-             | Some s' => (s', [0%Z])
-             | None => (s, [6%Z])
+             | inl s' => (s', [0%Z])
+             | inr e => (s, [perr_code e])
              end
       end
   | OMark c ids m =>
